@@ -16,6 +16,19 @@ func init() {
 	vHarnesses["vH_C11_myers_4_4"] = vH_C11_myers_4_4
 }
 
+func init() {
+	vHarnesses["vH_C11_myers_1_8"] = vH_C11_myers_1_8
+	vHarnesses["vH_C11_myers_8_1"] = vH_C11_myers_8_1
+	vHarnesses["vH_C11_myers_2_6"] = vH_C11_myers_2_6
+	vHarnesses["vH_C11_myers_6_2"] = vH_C11_myers_6_2
+}
+
+// very different lengths (a growing or shrinking timeline next to a short one)
+func vH_C11_myers_1_8() { vC11Myers(1, 8) }
+func vH_C11_myers_8_1() { vC11Myers(8, 1) }
+func vH_C11_myers_2_6() { vC11Myers(2, 6) }
+func vH_C11_myers_6_2() { vC11Myers(6, 2) }
+
 func vH_C11_myers_3_3() { vC11Myers(3, 3) }
 func vH_C11_myers_4_4() { vC11Myers(4, 4) }
 
@@ -31,8 +44,11 @@ func vC11Myers(maxN, maxM int) {
 	N := vConc(vInt("N", 0, maxN))
 	M := vConc(vInt("M", 0, maxM))
 	classes := 3
-	if maxN > 3 {
+	if maxN > 3 && maxM > 3 {
 		classes = 4
+	}
+	if maxN+maxM > 8 {
+		classes = 2
 	}
 	e := vMkList("e", N, classes)
 	f := vMkList("f", M, classes)
